@@ -380,6 +380,9 @@ def st_program(draw, cfg, universe=None, leaves=None):
             if not (steer and _unsliced_sort(main)):
                 node = ("mat", main, f"m{counter[0]}")
                 counter[0] += 1
+        elif choice == "mark":
+            if eng != 0 and main[0] != "mark":
+                node = ("mark", main)
         elif choice == "xfer":
             dests = [e for e in cfg.engines if e != eng]
             if dests:
